@@ -49,14 +49,14 @@ func refusedForPermission(log string) bool {
 // c08World: a chain with one account per role (+ one holding every role but one, per role).
 type c08World struct {
 	*env.Env
-	holder  map[string]chain.Account // role -> account that holds exactly that role
-	allBut  map[string]chain.Account // role -> account holding every role except it
-	nobody  chain.Account
-	trader  chain.Account
-	ids     map[string]int64
-	admins  [][2]int64
-	oracle  int64
-	clpWL   []int64
+	holder map[string]chain.Account // role -> account that holds exactly that role
+	allBut map[string]chain.Account // role -> account holding every role except it
+	nobody chain.Account
+	trader chain.Account
+	ids    map[string]int64
+	admins [][2]int64
+	oracle int64
+	clpWL  []int64
 }
 
 func newC08World() *c08World {
